@@ -2278,6 +2278,22 @@ impl<'i, R: XmlRead<'i>, E: EntityResolver> XmlReader<'i, R, E> {
         )
     }
 
+    /// Consumes all [`DocType`] events that are in the lookahead and captures
+    /// entity definitions from them. The DTD, like comments and processing
+    /// instructions, should not split the text into several [`DeEvent::Text`] events.
+    ///
+    /// [`DocType`]: PayloadEvent::DocType
+    fn skip_doctype(&mut self) -> Result<(), DeError> {
+        while let Ok(PayloadEvent::DocType(_)) = self.lookahead {
+            if let PayloadEvent::DocType(e) = self.next_impl()? {
+                self.entity_resolver
+                    .capture(e)
+                    .map_err(|err| DeError::Custom(format!("cannot parse DTD: {}", err)))?;
+            }
+        }
+        Ok(())
+    }
+
     /// Read all consequent [`Text`] and [`CData`] events until non-text event
     /// occurs. Content of all events would be appended to `result` and returned
     /// as [`DeEvent::Text`].
@@ -2286,12 +2302,14 @@ impl<'i, R: XmlRead<'i>, E: EntityResolver> XmlReader<'i, R, E> {
     /// [`CData`]: PayloadEvent::CData
     fn drain_text(&mut self, mut result: Cow<'i, str>) -> Result<DeEvent<'i>, DeError> {
         loop {
+            self.skip_doctype()?;
             if self.current_event_is_last_text() {
                 break;
             }
 
             match self.next_impl()? {
                 PayloadEvent::Text(mut e) => {
+                    self.skip_doctype()?;
                     if self.current_event_is_last_text() {
                         // FIXME: Actually, we should trim after decoding text, but now we trim before
                         e.inplace_trim_end();
@@ -2316,6 +2334,7 @@ impl<'i, R: XmlRead<'i>, E: EntityResolver> XmlReader<'i, R, E> {
                 PayloadEvent::Start(e) => Ok(DeEvent::Start(e)),
                 PayloadEvent::End(e) => Ok(DeEvent::End(e)),
                 PayloadEvent::Text(mut e) => {
+                    self.skip_doctype()?;
                     if self.current_event_is_last_text() && e.inplace_trim_end() {
                         // FIXME: Actually, we should trim after decoding text, but now we trim before
                         continue;
